@@ -1,6 +1,7 @@
 import CobraModel.Model.Sampling
 import CobraModel.Lemmas.LP
 import CobraModel.Lemmas.SplitRange
+import CobraModel.Lemmas.AuxProb
 import Mathlib.Tactic.Linarith
 import Mathlib.Tactic.Ring
 import Mathlib.Tactic.FieldSimp
@@ -413,5 +414,31 @@ example : Interior 0 [false, false] [0, 0] [1, 10] [1/2, 6] [1, 1] := by
   simp [Interior]; norm_num
 example : alphaRange (alphas 0 [false, false] [0, 0] [1, 10] [1/2, 6] [1, 1]) = (-1/2, 1/2) := by decide +kernel
 example : step 0 [false, false] [0, 0] [1, 10] [0, 0] [1, 10] [1/2, 5] (fun r => r.2) (fun _ => [1/2, 5]) 3 [1/2, 6] [1, 1] = some [1, 13/2] := by decide +kernel
+
+/-! ### from the sampler's matrices back to the model
+
+`AuxM.Prob.sampler p tol` (lean/CobraModel/Model/AuxProb.lean) is the matrix problem `HRSampler.__build_problem` derives from the solver problem
+(`constraint_matrices`: equality rows with right-hand sides, inequality rows with bounds, variable bounds and fixed flags, the extra unit rows for
+variables fixed at a non-zero value, the `homogeneous` flag).  `harness/auxcorr.py` compares it with `sampler.problem` of the real ACHR / OptGP
+samplers (exact rationals).  The step theorems above keep a walk inside these matrices; the theorem below carries a point of the matrices back to
+the model. -/
+open AuxM in
+/-- **a point of the sampler's matrix problem is a feasible flux distribution**: for a model with user constraints over fluxes, a point that
+satisfies the equalities, boxed inequalities and variable boxes the sampler works on gives net fluxes (`v = forward − reverse`, the mapping
+`sample(fluxes=True)` applies) at steady state, inside the reaction bounds and inside every user constraint -/
+theorem sample_point_is_feasible_flux (n : Net) (hp : n.Proper) (extra : List Extra) (hidx : ∀ e ∈ extra, ∀ q ∈ e.co, q.1 ∈ n.idx)
+    (tol : Rat) (hx : (n.fbaWith (extra.map Extra.row)).ExactEq tol) (x : V → Rat)
+    (h : ((n.fbaWith (extra.map Extra.row)).sampler tol).Sat ((n.fbaWith (extra.map Extra.row)).vars.map (fun w => x w.v))) :
+    n.Feasible (netOf x) ∧ ∀ e ∈ extra, Core.inBox (e.lb, e.ub) ((e.co.map (fun q => q.2 * netOf x q.1)).sum) :=
+  sampler_point_is_feasible_flux n hp extra hidx tol hx x h
+
+open AuxM in
+/-- the general form: for any solver problem with distinct continuous variables whose equality rows are exact, satisfying the matrices is being
+feasible -/
+theorem sampler_matrices_sound (p : Prob) (tol : Rat) (hc : p.Closed) (hx : p.ExactEq tol) (x : V → Rat)
+    (h : (p.sampler tol).Sat (p.vars.map (fun w => x w.v))) : p.Feasible x := sampler_sat_feasible p tol hc hx x h
+
+example : (AuxM.demoNet.fba.sampler (1/1000000)).homogeneous = true := by decide +kernel
+example : (AuxM.demoNet.fba.sampler (1/1000000)).equalities = [[1, -1, -1, 1]] := by decide +kernel
 
 end C16
